@@ -371,6 +371,7 @@ func refusalsOutsideRej(p *Program, r *Report, rule string, fn *ssa.Function, re
 	}
 	onlyValue := func(v ssa.Value) bool {
 		ok := true
+		hit := false // the condition must actually read the value: a flag φ of constants does not
 		seen := map[ssa.Value]bool{}
 		var walk func(v ssa.Value)
 		walk = func(v ssa.Value) {
@@ -379,6 +380,7 @@ func refusalsOutsideRej(p *Program, r *Report, rule string, fn *ssa.Function, re
 			}
 			seen[v] = true
 			if isValue(v) {
+				hit = true
 				return
 			}
 			switch x := v.(type) {
@@ -405,7 +407,38 @@ func refusalsOutsideRej(p *Program, r *Report, rule string, fn *ssa.Function, re
 			}
 		}
 		walk(v)
-		return ok
+		return ok && hit
+	}
+	// a condition that is a bool φ (`a || b` as a switch case) holds along one of its edges: each alternative carries
+	// the conditions of the path into the φ plus the edge's own value
+	var alternatives func(v ssa.Value, truth bool, at *ssa.BasicBlock, depth int) [][]Cond
+	alternatives = func(v ssa.Value, truth bool, at *ssa.BasicBlock, depth int) [][]Cond {
+		ph, isPhi := v.(*ssa.Phi)
+		if !isPhi || depth > 3 {
+			return [][]Cond{append(MustCondsAtBlock(fn, at), Cond{v, truth, at})}
+		}
+		var out [][]Cond
+		for i, e := range ph.Edges {
+			pb := ph.Block().Preds[i]
+			if k, isK := constBool(e); isK {
+				if k != truth {
+					continue
+				}
+				cs := MustCondsAtBlock(fn, pb)
+				if ec, ok := edgeCond(pb, ph.Block()); ok {
+					cs = append(cs, ec)
+				}
+				out = append(out, cs)
+				continue
+			}
+			for _, alt := range alternatives(e, truth, pb, depth+1) {
+				if ec, ok := edgeCond(pb, ph.Block()); ok {
+					alt = append(alt, ec)
+				}
+				out = append(out, alt)
+			}
+		}
+		return out
 	}
 	n := 0
 	for _, b := range fn.Blocks {
@@ -421,14 +454,19 @@ func refusalsOutsideRej(p *Program, r *Report, rule string, fn *ssa.Function, re
 				continue
 			}
 			n++
-			conds := append(MustCondsAtBlock(fn, b), Cond{iff.Cond, k == 0, b})
-			f := lc.FactsOf(conds)
-			f.le = append(f.le, val.scale(-1).addConst(lo)) // lo − value ≤ 0
-			if hi >= 0 {
-				f.le = append(f.le, val.addConst(-hi)) // value − hi ≤ 0
+			outside := true
+			for _, conds := range alternatives(iff.Cond, k == 0, b, 0) {
+				conds = append(conds, MustCondsAtBlock(fn, b)...)
+				f := lc.FactsOf(conds)
+				f.le = append(f.le, val.scale(-1).addConst(lo)) // lo − value ≤ 0
+				if hi >= 0 {
+					f.le = append(f.le, val.addConst(-hi)) // value − hi ≤ 0
+				}
+				// the facts contain value ≥ lo; deriving value ≤ lo − 1 from them means they are contradictory
+				if !lc.Entails(f, val.addConst(-(lo - 1))) {
+					outside = false
+				}
 			}
-			// the facts contain value ≥ lo; deriving value ≤ lo − 1 from them means they are contradictory
-			outside := lc.Entails(f, val.addConst(-(lo - 1)))
 			r.Add(rule, FnName(fn), fmt.Sprintf("the refusal on %s fires only outside %s", exprString(iff.Cond), what), iff.Cond.Pos(), outside,
 				"a value inside the specified range is refused on this edge")
 		}
